@@ -500,7 +500,7 @@ pub fn judge_deep(cmds: &[String], judged_history: &[Pos], old_history: Option<&
     let any_draw_position = !byrule.is_empty();
     let mut rs = RefSearch::new(400_000);
     // values of the iterations 1..=depth under one rule
-    let mut values = |rs: &mut RefSearch, exact: Option<&HashSet<Pos>>, keys: Option<&Vec<(Pos, Option<u8>)>>, first_only: bool| -> Option<Vec<i32>> {
+    let values = |rs: &mut RefSearch, exact: Option<&HashSet<Pos>>, keys: Option<&Vec<(Pos, Option<u8>)>>, first_only: bool| -> Option<Vec<i32>> {
         rs.clear_v();
         rs.draw_positions = exact.cloned();
         rs.draw_keys = keys.cloned();
